@@ -8,13 +8,19 @@ change was missed at first and the machinery was strengthened afterwards, the hi
 """
 import glob, json, os, re, shutil, sys
 
+FIRST = {}
 SRC = "/tmp/seed-out"
 DST = "/verif/seeded"
-ROUND = {"1": "r1", "2": "r2", "3": "r2b", "4": "r3", "5": "r4", "6": "r5", "7": "r6", "8": "r7"}
+ROUND = {"1": "r1", "2": "r2", "3": "r2b", "4": "r3", "5": "r4", "6": "r5", "7": "r6", "8": "r7", "9": "r8"}
 
 
 def main():
     os.makedirs(DST, exist_ok=True)
+    global FIRST
+    try:
+        FIRST = json.load(open(os.path.join(DST, "first_runs.json")))
+    except Exception:
+        FIRST = {}
     for d in sorted(glob.glob(os.path.join(SRC, "C*-*"))):
         base = os.path.basename(d)
         m = re.fullmatch(r"(C\d+)-(\d)", base)
@@ -61,6 +67,11 @@ def main():
                 "detected_with_concrete_input": res.get("detected_with_input"),
                 "history": old.get("history", []),
             }
+            if not old.get("history") and not old.get("ran"):
+                # first run of this seed, recovered from the batch logs (rounds r4..r7 were collected only at the end)
+                fr = FIRST.get(f"{pid}-{m.group(2)}-{k}")
+                if fr and [(x["tier"], x["rc"]) for x in fr.get("ran", [])] != [(x["tier"], x["rc"]) for x in (ran or [])]:
+                    entry["history"] = [{"ran": fr["ran"], "detected": fr["detected"], "detected_with_concrete_input": fr["detected_with_concrete_input"]}]
             if old.get("ran") and old.get("ran") != ran:
                 entry["history"] = old.get("history", []) + [{"ran": old.get("ran"), "detected": old.get("detected"), "detected_with_concrete_input": old.get("detected_with_concrete_input")}]
             json.dump(entry, open(meta_path, "w"), indent=1)
@@ -89,7 +100,27 @@ def table():
         if len(summ) > 170:
             summ = summ[:167] + "..."
         rows.append(f"| {name} | {summ} | {how}{hist} |")
-    text = "## 11. Seeded changes and which check catches them\n\nWritten by `tools/collect_seeds.py` from `/verif/seeded/*/meta.json`. Every change was written by a fresh sub-agent that saw only the property text and a scratch worktree; it compiles, passes the repository's unedited test suite, and comes with a demonstration that fails with it and passes without it (all re-confirmed by `tools/seedtest.py`). `quick`/`thorough` = the tier of `./check <id>` that reported it.\n\n| seed | change | caught by |\n|---|---|---|\n" + "\n".join(rows) + "\n"
+    # per-round summary: how many were caught by the machinery as it was when the round was first run, and now
+    rounds = {}
+    for mp in sorted(glob.glob(os.path.join(DST, "*", "meta.json"))):
+        name = os.path.basename(os.path.dirname(mp))
+        m = json.load(open(mp))
+        rd = name.split("-")[1]
+        first = (m.get("history") or [{"detected": m.get("detected"), "detected_with_concrete_input": m.get("detected_with_concrete_input")}])[0]
+        r = rounds.setdefault(rd, {"n": 0, "first": 0, "first_input": 0, "now": 0, "now_input": 0})
+        r["n"] += 1
+        r["first"] += 1 if first.get("detected") else 0
+        r["first_input"] += 1 if first.get("detected_with_concrete_input") else 0
+        r["now"] += 1 if m.get("detected") else 0
+        r["now_input"] += 1 if m.get("detected_with_concrete_input") else 0
+    summ = "| round | seeds | caught when first run (with concrete input) | caught by the final machinery (with concrete input) |\n|---|---|---|---|\n"
+    for rd in sorted(rounds, key=lambda x: (len(x), x)):
+        r = rounds[rd]
+        summ += f"| {rd} | {r['n']} | {r['first']} ({r['first_input']}) | {r['now']} ({r['now_input']}) |\n"
+    tot = {k: sum(r[k] for r in rounds.values()) for k in ("n", "first", "first_input", "now", "now_input")}
+    summ += f"| all | {tot['n']} | {tot['first']} ({tot['first_input']}) | {tot['now']} ({tot['now_input']}) |\n"
+    text = "## 11. Seeded changes and which check catches them\n\n" + "Rounds r1..r7 were written by fresh sub-agents (property text + scratch worktree only); from r5 on the agent was also given one-line summaries of every earlier idea for that property and told to find different ones. After each round the misses were analysed, generators widened or oracles added, and at the end every seed of every round was re-run against the final machinery (`tools/finalpass.sh`).\n\n" + summ + "\n" + ""
+    text += "Written by `tools/collect_seeds.py` from `/verif/seeded/*/meta.json`. Every change was written by a fresh sub-agent that saw only the property text and a scratch worktree; it compiles, passes the repository's unedited test suite, and comes with a demonstration that fails with it and passes without it (all re-confirmed by `tools/seedtest.py`). `quick`/`thorough` = the tier of `./check <id>` that reported it.\n\n| seed | change | caught by |\n|---|---|---|\n" + "\n".join(rows) + "\n"
     p = "/verif/DESIGN.md"
     s = open(p).read()
     if "## 11. Seeded changes and which check catches them" in s:
